@@ -13,6 +13,8 @@ import (
 	"encoding/json"
 	"fmt"
 	"os"
+	"runtime"
+	"time"
 )
 
 // Vector is the recorded sequence of values for native replay.
@@ -113,12 +115,17 @@ func Fail(msg string) { Failures = append(Failures, msg) }
 func Cover(label string) { Covered[label] = true }
 func Observe(s string)   { Observed = append(Observed, s) }
 
-// Drain lets background goroutines run until they block (engine only).
-func Drain() int { return 0 }
+// Drain lets background goroutines run until they exit or block, and returns
+// the number that are still alive. Under the engine this is exact; natively
+// it sleeps briefly and counts the process's goroutines (harnesses compare
+// with a count taken before the call under test).
+func Drain() int {
+	time.Sleep(30 * time.Millisecond)
+	return runtime.NumGoroutine() - 1
+}
 
-// Goroutines reports the number of live goroutines started by the harness
-// (engine only; natively 0).
-func Goroutines() int { return 0 }
+// Goroutines reports the number of live goroutines besides the harness's own.
+func Goroutines() int { return runtime.NumGoroutine() - 1 }
 func Blocked() int    { return 0 }
 
 // SchedMode(n): n >= 0 makes every scheduling decision a choice with at most
